@@ -34,7 +34,7 @@ class Ctx:
         self.samples = []
         self.violations = []
         self.known_seen = {}
-        self.known = [f for f in load_known().get('findings', []) if f['property'] == prop or prop in f.get('also', [])]
+        self.known = [f for f in load_known().get('findings', []) if f['property'] == prop or prop in f.get('also', []) or '*' in f.get('also', [])]
         self.canaries = [0, 0]
         self.extra = {}
         self.assumptions = []
